@@ -883,7 +883,7 @@ def generate(unit_dir):
                     dc = copy.deepcopy(d)
                     dc.opts = {k: v2 for k, v2 in d.opts.items() if k != 'cases'}
                     dc.opts['as'] = ['%s__case_%s' % (base, v)]
-                    dc.opts['case_requires'] = ['*%s~is~%s' % (param, v)]
+                    dc.opts['case_requires'] = ['%s~is~%s' % (param, v)]
                     build_fn(gen, dc)
                 d0 = copy.deepcopy(d)
                 d0.opts = {k: v2 for k, v2 in d.opts.items() if k != 'cases'}
@@ -891,8 +891,8 @@ def generate(unit_dir):
                 d0.blocks = [b for b in d.blocks if b.kind == 'contract']
                 build_fn(gen, d0)
                 gen.emit('// CS: the case assumptions of %s__case_* cover every value of the parameter' % base, None)
-                gen.emit('proof fn %s__cases_exhaustive(%s: %s)' % (base, param, d.opts['cases_type'][0].replace('~', ' ')), None)
-                gen.emit('    ensures %s,' % ' || '.join('%s is %s' % (param, v) for v in variants), None)
+                gen.emit('proof fn %s__cases_exhaustive(x: %s)' % (base, d.opts['cases_type'][0].replace('~', ' ')), None)
+                gen.emit('    ensures %s,' % ' || '.join('x is %s' % v for v in variants), None)
                 gen.emit('{}', None)
                 gen.emit('', None)
             elif d.kind == 'fn':
